@@ -155,6 +155,20 @@ Proof.
   destruct (N.leb_spec n usize_max); [reflexivity | lia].
 Qed.
 
+(* ... and a value outside the machine range is refused, whatever it is *)
+Theorem parse_isize_print_gen z : parse_isize (print_Z z) = if in_isize z then Some z else None.
+Proof.
+  unfold print_Z. destruct (Z.ltb_spec z 0) as [Hneg|Hpos].
+  - unfold parse_isize. rewrite N.eqb_refl. unfold signed_in_range. rewrite parse_unsigned_print.
+    cbn zeta. replace (Z.opp (Z.of_N (Z.to_N (- z)))) with z by lia. reflexivity.
+  - unfold parse_isize. destruct (print_N_head (Z.to_N z)) as (c & s & Hs & Hc). rewrite Hs.
+    destruct (N.eqb_spec c 45) as [->|Hne]; [lia|]. rewrite <- Hs.
+    unfold signed_in_range. rewrite parse_unsigned_print. cbn zeta.
+    replace (Z.of_N (Z.to_N z)) with z by lia. reflexivity.
+Qed.
+Theorem parse_usize_print_gen n : parse_usize (print_N n) = if N.leb n usize_max then Some n else None.
+Proof. unfold parse_usize. rewrite parse_unsigned_print. reflexivity. Qed.
+
 (* numbers are exact: a numeral is accepted only if it consists of digits and its
    value (computed left to right) is the returned number, in range *)
 Fixpoint digits_value (s : str) (acc : N) : N :=
